@@ -16,9 +16,13 @@
      wire position of read_buffer[0] (`r_wbase`); reset_read_state's one-byte copy moves the
      window.  (Content equality of what is delivered is checked by the harness on real bytes.)
    - usize arithmetic is unbounded; slice-index panics are explicit (`RPanic`).
-   - The carrier is a script: for reads a list of numbers (0 = Pending, n>0 = "at most n bytes"),
-     end of script = EOF; for writes (0 = Pending, n>0 = "accept at most n bytes"), end of script =
-     accept everything. *)
+   - The carrier is a script, one entry per carrier call: 0 = Pending, 0 < n < SPECIAL = "at most n
+     bytes", SPECIAL = the call returns Ok(0), SPECIAL + k = the call returns Err(kind k).  For reads
+     the end of the script is EOF (Ok(0) for ever); for writes, flushes and closes it is "accept
+     everything / Ready".  After the carrier's write half was closed, its poll_write returns
+     BrokenPipe and its poll_flush / poll_close return Ready without consuming the script.
+   - `r_lp` / `w_lp` record whether the last carrier call made during the most recent socket poll
+     returned Pending (a carrier that returns Pending has registered the waker). *)
 From Coq Require Import List NArith Bool.
 From V.gen Require Import Consts.
 Import ListNotations.
@@ -28,6 +32,14 @@ Definition MSG : N := MAX_NOISE_MSG_LEN.            (* 65536 *)
 Definition TAG : N := NOISE_EXTRA_ENCRYPT_SPACE.    (* 16 *)
 (* snow::constants::MAXMSGLEN: TransportState::{write,read}_message refuse longer messages *)
 Definition SNOW_MAX : N := 65535.
+
+(* carrier script entries at or above SPECIAL are faults *)
+Definition SPECIAL : N := 1099511627776.   (* 2^40 *)
+(* io::ErrorKind as reported in traces: 1 UnexpectedEof, 2 InvalidData, 3 PermissionDenied,
+   5 WriteZero, 6 ConnectionReset, 7 BrokenPipe, 8 TimedOut, 9 Other *)
+Definition ecode (k : N) : N := if (6 <=? k) && (k <=? 8) then k else 9.
+Definition E_WRITEZERO : N := 5.
+Definition E_BROKENPIPE : N := 7.
 
 (* configuration: read-ahead factor, write-buffer size, maximum plaintext per frame *)
 Record cfg := mkCfg { c_factor : N; c_wbuf : N; c_mfl : N }.
@@ -90,7 +102,8 @@ Inductive rstate :=
 | ReadData (max_read : N)
 | ReadFrameLen
 | ProcNone                          (* ProcessNextFrame { pending: None, .. } *)
-| ProcPend (poff psize pfs : N).    (* ProcessNextFrame { pending: Some(_), offset, size, frame_size } *)
+| ProcPend (poff psize pfs : N)     (* ProcessNextFrame { pending: Some(_), offset, size, frame_size } *)
+| Failed.                           (* a protocol error was reported; sticky *)
 
 Record reader := mkR {
   r_state : rstate;
@@ -99,10 +112,11 @@ Record reader := mkR {
   r_cfs : option N;       (* current_frame_size *)
   r_wbase : N;            (* wire position of read_buffer[0] *)
   r_ctr : N;              (* receive nonce = number of frames decrypted so far *)
-  r_pbase : N             (* stream position of pending[0] *)
+  r_pbase : N;            (* stream position of pending[0] *)
+  r_lp : bool             (* the last carrier call of the current poll returned Pending *)
 }.
 
-Definition reader_init (c : cfg) : reader := mkR (ReadData (cmax c)) 0 0 None 0 0 0.
+Definition reader_init (c : cfg) : reader := mkR (ReadData (cmax c)) 0 0 None 0 0 0 false.
 
 Inductive rres := RReady (n pos : N) | RPending | RErr (e : N) | RPanic.
 Definition E_EOF : N := 1.       (* io::ErrorKind::UnexpectedEof *)
@@ -118,12 +132,14 @@ Record renv := mkEnv {
 }.
 
 Definition set_state (r : reader) (s : rstate) : reader :=
-  mkR s (r_nread r) (r_offset r) (r_cfs r) (r_wbase r) (r_ctr r) (r_pbase r).
+  mkR s (r_nread r) (r_offset r) (r_cfs r) (r_wbase r) (r_ctr r) (r_pbase r) (r_lp r).
+Definition set_lp (r : reader) (b : bool) : reader :=
+  mkR (r_state r) (r_nread r) (r_offset r) (r_cfs r) (r_wbase r) (r_ctr r) (r_pbase r) b.
 
 (* reset_read_state(remaining), remaining < 2 *)
 Definition reset_read (c : cfg) (r : reader) (remaining : N) : reader :=
   mkR (ReadData (cmax c)) remaining 0 (r_cfs r)
-      (r_wbase r + r_nread r - remaining) (r_ctr r) (r_pbase r).
+      (r_wbase r + r_nread r - remaining) (r_ctr r) (r_pbase r) (r_lp r).
 
 (* one pass through the ReadFrameLen arm; Some res = poll_read returns *)
 Definition step_len (e : renv) (r : reader) : reader * option rres :=
@@ -143,15 +159,15 @@ Definition step_len (e : renv) (r : reader) : reader * option rres :=
       | Some fs =>
           if rem' <? fs then
             if r_nread r + fs <? cmax c then
-              (mkR (ReadData (cmax c)) (r_nread r) off' (Some fs) (r_wbase r) (r_ctr r) (r_pbase r), None)
+              (mkR (ReadData (cmax c)) (r_nread r) off' (Some fs) (r_wbase r) (r_ctr r) (r_pbase r) (r_lp r), None)
             else
               (mkR (ReadData (r_nread r + fs - rem')) (r_nread r) off' (Some fs)
-                   (r_wbase r) (r_ctr r) (r_pbase r), None)
+                   (r_wbase r) (r_ctr r) (r_pbase r) (r_lp r), None)
           else if fs <=? TAG then
-            (mkR ReadFrameLen (r_nread r) off' None (r_wbase r) (r_ctr r) (r_pbase r),
+            (mkR Failed (r_nread r) off' None (r_wbase r) (r_ctr r) (r_pbase r) (r_lp r),
              Some (RErr E_INVALID))
           else
-            (mkR ProcNone (r_nread r) off' (Some fs) (r_wbase r) (r_ctr r) (r_pbase r), None)
+            (mkR ProcNone (r_nread r) off' (Some fs) (r_wbase r) (r_ctr r) (r_pbase r) (r_lp r), None)
       end.
 
 (* the ProcessNextFrame arm: always returns *)
@@ -161,43 +177,45 @@ Definition proc (e : renv) (buflen : N) (r : reader) : reader * rres :=
   | ProcPend poff psize pfs =>
       if psize <? poff then (r, RPanic)                      (* pending[offset..size] *)
       else if psize - poff <=? buflen then
-        (mkR ReadFrameLen (r_nread r) (r_offset r + pfs) (r_cfs r) (r_wbase r) (r_ctr r) (r_pbase r),
+        (mkR ReadFrameLen (r_nread r) (r_offset r + pfs) (r_cfs r) (r_wbase r) (r_ctr r) (r_pbase r) (r_lp r),
          RReady (psize - poff) (r_pbase r + poff))
       else
         (mkR (ProcPend (poff + buflen) psize pfs) (r_nread r) (r_offset r) (r_cfs r)
-             (r_wbase r) (r_ctr r) (r_pbase r),
+             (r_wbase r) (r_ctr r) (r_pbase r) (r_lp r),
          RReady buflen (r_pbase r + poff))
   | ProcNone =>
       match r_cfs r with
       | None => (r, RPanic)                                   (* expect("`frame_size` to exist") *)
       | Some fs =>
-          let r0 := mkR ProcNone (r_nread r) (r_offset r) None (r_wbase r) (r_ctr r) (r_pbase r) in
+          let r0 := mkR ProcNone (r_nread r) (r_offset r) None (r_wbase r) (r_ctr r) (r_pbase r) (r_lp r) in
+          (* after a reported protocol error the socket stays failed *)
+          let rf := mkR Failed (r_nread r) (r_offset r) None (r_wbase r) (r_ctr r) (r_pbase r) (r_lp r) in
           if fs <? TAG then (r0, RPanic)                      (* frame_size - 16 underflows *)
           else if rbuf_len c <? r_offset r + fs then (r0, RPanic)   (* read_buffer[offset..offset+fs] *)
           else if r_nread r <? r_offset r + fs then (r0, RErr E_MODEL) (* stale bytes: unpredictable *)
-          else if SNOW_MAX <? fs then (r0, RErr E_INVALID)    (* snow: message too long *)
+          else if SNOW_MAX <? fs then (rf, RErr E_INVALID)    (* snow: message too long *)
           else
             let ok := body_ok (e_items e) (r_ctr r) (r_wbase r + r_offset r) fs in
             let ps := pstart (e_plains e) (r_ctr r) in
             if fs - TAG <=? buflen then
               if ok then
-                (mkR ReadFrameLen (r_nread r) (r_offset r + fs) None (r_wbase r) (r_ctr r + 1) (r_pbase r),
+                (mkR ReadFrameLen (r_nread r) (r_offset r + fs) None (r_wbase r) (r_ctr r + 1) (r_pbase r) (r_lp r),
                  RReady (fs - TAG) ps)
-              else (r0, RErr E_INVALID)
-            else if c_mfl c <? fs - TAG then (r0, RErr E_INVALID)  (* decrypt_buffer (MAX_FRAME_LEN) too small: snow refuses *)
+              else (rf, RErr E_INVALID)
+            else if c_mfl c <? fs - TAG then (rf, RErr E_INVALID)  (* decrypt_buffer (MAX_FRAME_LEN) too small: snow refuses *)
             else
               if ok then
                 (mkR (ProcPend buflen (fs - TAG) fs) (r_nread r) (r_offset r) None
-                     (r_wbase r) (r_ctr r + 1) ps,
+                     (r_wbase r) (r_ctr r + 1) ps (r_lp r),
                  RReady buflen ps)
-              else (r0, RErr E_INVALID)
+              else (rf, RErr E_INVALID)
       end
   | _ => (r, RErr E_MODEL)
   end.
 
 (* poll_read(buf) with buf.len() = buflen against the carrier script sc.
    Structural on the script: every pass through the ReadData arm consumes one script entry. *)
-Fixpoint poll_read (e : renv) (buflen : N) (sc : list N) (r : reader) : rres * reader * list N :=
+Fixpoint poll_go (e : renv) (buflen : N) (sc : list N) (r : reader) : rres * reader * list N :=
   let '(r1, res) := match r_state r with
                     | ReadFrameLen => step_len e r
                     | _ => (r, None)
@@ -206,30 +224,37 @@ Fixpoint poll_read (e : renv) (buflen : N) (sc : list N) (r : reader) : rres * r
   | Some x => (x, r1, sc)
   | None =>
       match r_state r1 with
+      | Failed => (RErr E_INVALID, r1, sc)
       | ReadData mr =>
           if (mr <? r_nread r1) || (rbuf_len (e_cfg e) <? mr) then (RPanic, r1, sc)
           else
             match sc with
-            | [] => (RErr E_EOF, r1, [])
+            | [] => (RErr E_EOF, set_lp r1 false, [])
             | x :: t =>
-                if x =? 0 then (RPending, r1, t)
+                if x =? 0 then (RPending, set_lp r1 true, t)
+                else if x =? SPECIAL then (RErr E_EOF, set_lp r1 false, t)
+                else if SPECIAL <? x then (RErr (ecode (x - SPECIAL)), set_lp r1 false, t)
                 else
                   let pulled := r_wbase r1 + r_nread r1 in
                   let k := N.min x (N.min (mr - r_nread r1) (e_avail e - pulled)) in
-                  if k =? 0 then (RErr E_EOF, r1, t)
-                  else poll_read e buflen t
+                  if k =? 0 then (RErr E_EOF, set_lp r1 false, t)
+                  else poll_go e buflen t
                          (mkR ReadFrameLen (r_nread r1 + k) (r_offset r1) (r_cfs r1)
-                              (r_wbase r1) (r_ctr r1) (r_pbase r1))
+                              (r_wbase r1) (r_ctr r1) (r_pbase r1) false)
             end
       | ReadFrameLen => (RErr E_MODEL, r1, sc)
       | _ => let '(r2, x) := proc e buflen r1 in (x, r2, sc)
       end
   end.
 
-Definition is_final (x : rres) : bool :=
-  match x with RErr _ | RPanic => true | _ => false end.
+Definition poll_read (e : renv) (buflen : N) (sc : list N) (r : reader) : rres * reader * list N :=
+  poll_go e buflen sc (set_lp r false).
 
-(* a sequence of poll_read calls with the given buffer sizes; stops after the first error *)
+Definition is_final (x : rres) : bool :=
+  match x with RPanic => true | _ => false end.
+
+(* a sequence of poll_read calls with the given buffer sizes.  The socket is polled on after
+   errors and EOF (callers do that); only a panic ends the run. *)
 Fixpoint run_reader (e : renv) (bufs : list N) (sc : list N) (r : reader)
   : list (rres * reader) :=
   match bufs with
@@ -246,26 +271,45 @@ Inductive wstate := WIdle | Writing (off elen : N).
 Record writer := mkW {
   w_state : wstate;
   w_frames : list N;     (* plaintext lengths of all frames encrypted so far, oldest first *)
-  w_sent : N             (* bytes handed to the carrier so far *)
+  w_sent : N;            (* bytes handed to the carrier so far *)
+  w_cclosed : bool;      (* the carrier's poll_close has returned Ready(Ok) *)
+  w_lp : bool            (* the last carrier call of the most recent poll returned Pending *)
 }.
-Definition writer_init : writer := mkW WIdle [] 0.
+Definition writer_init : writer := mkW WIdle [] 0 false false.
 
 Inductive wres := WReady (n : N) | WPending | WErr (e : N) | WPanic.
 
-Inductive drain_res := DDone | DPend | DPanic.
+Inductive drain_res := DDone | DPend | DErr (e : N) | DPanic.
 
 (* the loop `io.poll_write(&encrypt_buffer[offset..encrypted_len])` *)
-Fixpoint drain (eb : N) (sc : list N) (off elen sent : N) : drain_res * N * N * list N :=
+Fixpoint drain (eb : N) (closed : bool) (sc : list N) (off elen sent : N)
+  : drain_res * N * N * list N :=
   if (elen <? off) || (eb <? elen) then (DPanic, off, sent, sc)
+  else if closed then (DErr E_BROKENPIPE, off, sent, sc)
   else
     match sc with
     | [] => (DDone, elen, sent + (elen - off), [])
     | x :: t =>
         if x =? 0 then (DPend, off, sent, t)
+        else if x =? SPECIAL then (DErr E_WRITEZERO, off, sent, t)
+        else if SPECIAL <? x then (DErr (ecode (x - SPECIAL)), off, sent, t)
         else
           let k := N.min x (elen - off) in
           if off + k =? elen then (DDone, elen, sent + k, t)
-          else drain eb t (off + k) elen (sent + k)
+          else drain eb closed t (off + k) elen (sent + k)
+    end.
+
+(* the carrier's poll_flush / poll_close *)
+Inductive cres := CReady | CPend | CErr (e : N).
+Definition carrier_ctl (closed : bool) (sc : list N) : cres * list N :=
+  if closed then (CReady, sc)
+  else
+    match sc with
+    | [] => (CReady, [])
+    | x :: t =>
+        if x =? 0 then (CPend, t)
+        else if SPECIAL <? x then (CErr (ecode (x - SPECIAL)), t)
+        else (CReady, t)
     end.
 
 (* `for chunk in buf.chunks(MAX_FRAME_LEN)`: Some (buffer_offset', total_plaintext, frames) or
@@ -288,20 +332,24 @@ Fixpoint pack (c : cfg) (fuel : nat) (rest bo : N) : option (N * N * list N) :=
 
 Definition chunk_count (c : cfg) (len : N) : nat := S (N.to_nat (len / N.max 1 (c_mfl c))).
 
+(* "attempt to drain any pending data": the first step of poll_write and of poll_flush *)
+Definition wpre (c : cfg) (sc : list N) (w : writer) : drain_res * wstate * N * list N :=
+  match w_state w with
+  | WIdle => (DDone, WIdle, w_sent w, sc)
+  | Writing off elen =>
+      match drain (ebuf_len c) (w_cclosed w) sc off elen (w_sent w) with
+      | (DDone, _, s, sc') => (DDone, WIdle, s, sc')
+      | (d, off', s, sc') => (d, Writing off' elen, s, sc')
+      end
+  end.
+
 Definition poll_write (c : cfg) (len : N) (sc : list N) (w : writer) : wres * writer * list N :=
-  let '(dres, st1, sent1, sc1) :=
-    match w_state w with
-    | WIdle => (DDone, WIdle, w_sent w, sc)
-    | Writing off elen =>
-        match drain (ebuf_len c) sc off elen (w_sent w) with
-        | (DDone, _, s, sc') => (DDone, WIdle, s, sc')
-        | (DPend, off', s, sc') => (DPend, Writing off' elen, s, sc')
-        | (DPanic, off', s, sc') => (DPanic, Writing off' elen, s, sc')
-        end
-    end in
-  let w1 := mkW st1 (w_frames w) sent1 in
+  let '(dres, st1, sent1, sc1) := wpre c sc w in
+  let lp1 := match dres with DPend => true | _ => false end in
+  let w1 := mkW st1 (w_frames w) sent1 (w_cclosed w) lp1 in
   match dres with
   | DPanic => (WPanic, w1, sc1)
+  | DErr e => (WErr e, w1, sc1)
   | _ =>
       let bo := match st1 with WIdle => 0 | Writing _ elen => elen end in
       if len =? 0 then (WReady 0, w1, sc1)
@@ -313,30 +361,58 @@ Definition poll_write (c : cfg) (len : N) (sc : list N) (w : writer) : wres * wr
             if total =? 0 then (WPending, w1, sc1)
             else
               let off := match st1 with WIdle => 0 | Writing off _ => off end in
-              (WReady total, mkW (Writing off bo') (w_frames w ++ fr) sent1, sc1)
+              (WReady total, mkW (Writing off bo') (w_frames w ++ fr) sent1 (w_cclosed w) lp1, sc1)
         end
   end.
 
+(* the default AsyncWrite::poll_write_vectored: the first non-empty buffer, or an empty write *)
+Fixpoint first_nonempty (lens : list N) : N :=
+  match lens with [] => 0 | x :: t => if x =? 0 then first_nonempty t else x end.
+
 Definition poll_flush (c : cfg) (sc : list N) (w : writer) : wres * writer * list N :=
-  match w_state w with
-  | WIdle => (WReady 0, w, sc)
-  | Writing off elen =>
-      match drain (ebuf_len c) sc off elen (w_sent w) with
-      | (DDone, _, s, sc') => (WReady 0, mkW WIdle (w_frames w) s, sc')
-      | (DPend, off', s, sc') => (WPending, mkW (Writing off' elen) (w_frames w) s, sc')
-      | (DPanic, off', s, sc') => (WPanic, mkW (Writing off' elen) (w_frames w) s, sc')
+  let '(dres, st1, sent1, sc1) := wpre c sc w in
+  let mk := mkW st1 (w_frames w) sent1 (w_cclosed w) in
+  match dres with
+  | DPanic => (WPanic, mk false, sc1)
+  | DErr e => (WErr e, mk false, sc1)
+  | DPend => (WPending, mk true, sc1)
+  | DDone =>
+      (* Flush underlying socket *)
+      match carrier_ctl (w_cclosed w) sc1 with
+      | (CReady, sc2) => (WReady 0, mk false, sc2)
+      | (CPend, sc2) => (WPending, mk true, sc2)
+      | (CErr e, sc2) => (WErr e, mk false, sc2)
       end
   end.
 
-Inductive wop := OWrite (len : N) | OFlush.
+(* poll_close: `ready!(poll_flush)?` then the carrier's poll_close *)
+Definition poll_close (c : cfg) (sc : list N) (w : writer) : wres * writer * list N :=
+  let '(x, w1, sc1) := poll_flush c sc w in
+  match x with
+  | WReady _ =>
+      let mk := mkW (w_state w1) (w_frames w1) (w_sent w1) in
+      match carrier_ctl (w_cclosed w1) sc1 with
+      | (CReady, sc2) => (WReady 0, mk true false, sc2)
+      | (CPend, sc2) => (WPending, mk (w_cclosed w1) true, sc2)
+      | (CErr e, sc2) => (WErr e, mk (w_cclosed w1) false, sc2)
+      end
+  | _ => (x, w1, sc1)
+  end.
+
+Inductive wop := OWrite (len : N) | OFlush | OClose | OWriteV (lens : list N).
 
 Definition wstep (c : cfg) (o : wop) (sc : list N) (w : writer) : wres * writer * list N :=
-  match o with OWrite len => poll_write c len sc w | OFlush => poll_flush c sc w end.
+  match o with
+  | OWrite len => poll_write c len sc w
+  | OFlush => poll_flush c sc w
+  | OClose => poll_close c sc w
+  | OWriteV lens => poll_write c (first_nonempty lens) sc w
+  end.
 
 Definition w_is_final (x : wres) : bool :=
-  match x with WErr _ | WPanic => true | _ => false end.
+  match x with WPanic => true | _ => false end.
 
-(* a sequence of writer calls; stops after the first error *)
+(* a sequence of writer calls; the socket is used on after errors, only a panic ends the run *)
 Fixpoint run_writer (c : cfg) (ops : list wop) (sc : list N) (w : writer)
   : list (wres * writer) * writer * bool :=
   match ops with
@@ -347,10 +423,13 @@ Fixpoint run_writer (c : cfg) (ops : list wop) (sc : list N) (w : writer)
       else let '(l, wf, ok) := run_writer c t sc' w' in ((x, w') :: l, wf, ok)
   end.
 
+Definition is_write (o : wop) : bool :=
+  match o with OWrite _ | OWriteV _ => true | _ => false end.
+
 (* plaintext bytes accepted by a run = sum of the Ready counts of the write calls *)
 Fixpoint accepted (ops : list wop) (tr : list (wres * writer)) : N :=
   match ops, tr with
-  | OWrite _ :: ot, (WReady n, _) :: tl => n + accepted ot tl
+  | o :: ot, (WReady n, _) :: tl => (if is_write o then n else 0) + accepted ot tl
   | _ :: ot, _ :: tl => accepted ot tl
   | _, _ => 0
   end.
@@ -360,6 +439,15 @@ Fixpoint sum (l : list N) : N := match l with [] => 0 | x :: t => x + sum t end.
 (* wire bytes of a list of frames: 2-byte header + ciphertext (plaintext + tag) each *)
 Fixpoint frames_wire (l : list N) : N :=
   match l with [] => 0 | x :: t => (2 + (x + TAG)) + frames_wire t end.
+
+(* the frames that are completely with the carrier when `sent` bytes were handed over *)
+Fixpoint sent_frames (l : list N) (sent : N) : list N :=
+  match l with
+  | [] => []
+  | x :: t =>
+      let wl := 2 + (x + TAG) in
+      if wl <=? sent then x :: sent_frames t (sent - wl) else []
+  end.
 
 (* ------------------------------------------------------------------ tampering in transit *)
 
